@@ -3,7 +3,7 @@ From Common Require Import Base.
 From Jwt Require Import Model.
 Open Scope Z_scope.
 
-(* ---- cache as association list *)
+(* ---- result cache as association list *)
 Lemma lookup_cons c id e id' :
   lookup ((id, e) :: c) id' = if Nat.eqb id id' then Some e else lookup c id'.
 Proof. unfold lookup. cbn [find fst snd]. destruct (Nat.eqb id id'); reflexivity. Qed.
@@ -20,15 +20,103 @@ Proof.
   unfold lookup, evict. induction c as [|[k x] c IH]; [discriminate|].
   cbn [filter fst]. destruct (Nat.eqb k id) eqn:Hk; cbn [negb].
   - intros H. specialize (IH H). cbn [find fst]. destruct (Nat.eqb k id') eqn:Hk'; [|exact IH].
-    (* k = id and k = id' : but then the evicted list cannot contain id' = id *)
     apply Nat.eqb_eq in Hk. apply Nat.eqb_eq in Hk'. subst.
     pose proof (lookup_evict_same c id') as Hn. unfold lookup, evict in Hn. rewrite Hn in H. discriminate.
   - cbn [find fst]. destruct (Nat.eqb k id'); [auto|exact IH].
 Qed.
 
-(* ---- invariant: every cached entry belongs to a token whose static checks passed and mirrors it *)
-Definition static_ok (cfg : config) (t : token) : bool :=
-  alg_allowed (t_alg t) && t_key_found t && t_sig_ok t && iss_ok cfg t && aud_ok cfg t.
+(* ---- key selection: what it leaves alone, and what a selected key means *)
+Definition frame (s s' : state) : Prop :=
+  now s' = now s /\ cache s' = cache s /\ revoked s' = revoked s /\ published s' = published s.
+
+(* the cached key set is either untouched or replaced by the usable keys published right now *)
+Definition keys_step (s s' : state) : Prop :=
+  (jwks s' = jwks s /\ fetched_at s' = fetched_at s) \/
+  (jwks s' = usable (published s) /\ fetched_at s' = now s).
+
+Lemma frame_refl s : frame s s. Proof. repeat split. Qed.
+
+Lemma refresh_spec s s' : refresh s = Some s' ->
+  frame s s' /\ jwks s' = usable (published s) /\ fetched_at s' = now s /\ jwks s' <> [].
+Proof.
+  unfold refresh. destruct (usable (published s)) as [|k ks] eqn:Hu; [discriminate|].
+  intros H. inversion H; subst s'. cbn. repeat split; try reflexivity. discriminate.
+Qed.
+
+Lemma refresh_find_spec s kid s' r : refresh_find s kid = (s', r) ->
+  frame s s' /\ keys_step s s' /\
+  (forall m, r = Some m -> find_kid (jwks s') kid = Some m /\ fetched_at s' = now s').
+Proof.
+  unfold refresh_find. destruct (refresh s) as [s1|] eqn:Hr; intros H; inversion H; subst.
+  - destruct (refresh_spec _ _ Hr) as [Hf [Hj [Ht _]]]. split; [exact Hf|]. split; [right; auto|].
+    intros m Hm. split; [exact Hm|]. destruct Hf as [Hn _]. congruence.
+  - split; [apply frame_refl|]. split; [left; auto|]. intros m Hm. discriminate.
+Qed.
+
+Lemma key_by_id_spec cfg s kid s' r : 0 < c_ttl cfg -> key_by_id cfg s kid = (s', r) ->
+  frame s s' /\ keys_step s s' /\
+  (forall m, r = Some m -> find_kid (jwks s') kid = Some m /\ now s' - fetched_at s' < c_ttl cfg).
+Proof.
+  intros Httl. unfold key_by_id. destruct (is_fresh cfg s) eqn:Hfr.
+  - destruct (find_kid (jwks s) kid) as [m|] eqn:Hk.
+    + intros H. inversion H; subst. split; [apply frame_refl|]. split; [left; auto|].
+      intros m' Hm. inversion Hm; subst. split; [exact Hk|].
+      unfold is_fresh in Hfr. apply andb_true_iff in Hfr. destruct Hfr as [_ Ha]. lia.
+    + destruct (limited s).
+      * intros H. inversion H; subst. split; [apply frame_refl|]. split; [left; auto|]. intros m Hm. discriminate.
+      * intros H. apply refresh_find_spec in H. destruct H as [Hf [Hks Hm]].
+        split; [exact Hf|]. split; [exact Hks|].
+        intros m Hs. destruct (Hm m Hs) as [A B]. split; [exact A|]. lia.
+  - intros H. apply refresh_find_spec in H. destruct H as [Hf [Hks Hm]].
+    split; [exact Hf|]. split; [exact Hks|].
+    intros m Hs. destruct (Hm m Hs) as [A B]. split; [exact A|]. lia.
+Qed.
+
+Lemma first_key_spec s s' r : first_key s = (s', r) ->
+  frame s s' /\ keys_step s s' /\ (forall m, r = Some m -> exists k rest, jwks s' = (k, m) :: rest).
+Proof.
+  unfold first_key. destruct (jwks s) as [|[k m] rest] eqn:Hj.
+  - destruct (refresh s) as [s1|] eqn:Hr; intros H; inversion H; subst.
+    + destruct (refresh_spec _ _ Hr) as [Hf [Hj' [Ht _]]]. split; [exact Hf|]. split; [right; auto|].
+      intros m Hm. destruct (jwks s') as [|[k m'] rest]; [discriminate|]. inversion Hm; subst. eauto.
+    + split; [apply frame_refl|]. split; [left; auto|]. intros m Hm. discriminate.
+  - intros H. inversion H; subst. split; [apply frame_refl|]. split; [left; auto|].
+    intros m' Hm. inversion Hm; subst. eauto.
+Qed.
+
+Definition key_sel (cfg : config) (s' : state) (t : token) (m : nat) : Prop :=
+  if is_nil (t_kid t) then exists k r, jwks s' = (k, m) :: r
+  else find_kid (jwks s') (t_kid t) = Some m /\ now s' - fetched_at s' < c_ttl cfg.
+
+Lemma select_key_spec cfg s t s' r : 0 < c_ttl cfg -> select_key cfg s t = (s', r) ->
+  frame s s' /\ keys_step s s' /\ (forall m, r = Some m -> alg_allowed (t_alg t) = true /\ key_sel cfg s' t m).
+Proof.
+  intros Httl. unfold select_key, key_sel. destruct (alg_allowed (t_alg t)); cbn [negb].
+  - destruct (is_nil (t_kid t)).
+    + intros H. apply first_key_spec in H. destruct H as [A [B C]]. split; [exact A|]. split; [exact B|].
+      intros m Hm. split; [reflexivity|]. apply C, Hm.
+    + intros H. apply key_by_id_spec in H; [|exact Httl]. destruct H as [A [B C]]. split; [exact A|]. split; [exact B|].
+      intros m Hm. split; [reflexivity|]. apply C, Hm.
+  - intros H. inversion H; subst. split; [apply frame_refl|]. split; [left; auto|]. intros m Hm. discriminate.
+Qed.
+
+Lemma lib_verdict_spec cfg s t s' v : 0 < c_ttl cfg -> lib_verdict cfg s t = (s', v) ->
+  frame s s' /\ keys_step s s' /\
+  (forall e, v = Some e ->
+     alg_allowed (t_alg t) = true /\ key_sel cfg s' t (t_signer t) /\ t_sig_valid t = true /\
+     claims_pass cfg (now s) t = true /\ t_exp t = Some e).
+Proof.
+  intros Httl. unfold lib_verdict. destruct (select_key cfg s t) as [s1 k] eqn:Hs.
+  intros H. inversion H; subst. clear H. apply select_key_spec in Hs; [|exact Httl].
+  destruct Hs as [A [B C]]. split; [exact A|]. split; [exact B|].
+  intros e He. destruct k as [m|]; [|discriminate].
+  destruct (Nat.eqb m (t_signer t)) eqn:Hm; [|discriminate]. destruct (t_sig_valid t); [|discriminate].
+  destruct (claims_pass cfg (now s) t) eqn:Hc; [|discriminate]. cbn [andb] in He.
+  apply Nat.eqb_eq in Hm. subst m. destruct (C _ eq_refl) as [Ha Hk]. auto.
+Qed.
+
+(* ---- invariant: every cached entry mirrors a token whose claim checks passed *)
+Definition static_ok (cfg : config) (t : token) : bool := alg_allowed (t_alg t) && iss_ok cfg t && aud_ok cfg t.
 
 Definition entry_ok (cfg : config) (nw : Z) (t : token) (e : entry) : Prop :=
   static_ok cfg t = true /\ t_exp t = Some (e_exp e) /\ nbf_ok nw t = true /\
@@ -37,150 +125,234 @@ Definition entry_ok (cfg : config) (nw : Z) (t : token) (e : entry) : Prop :=
 Definition Inv (cfg : config) (toks : nat -> token) (s : state) : Prop :=
   forall id e, lookup (cache s) id = Some e -> entry_ok cfg (now s) (toks id) e.
 
-Lemma Inv_init cfg toks t0 : Inv cfg toks (init t0).
+Lemma Inv_init cfg toks t0 d : Inv cfg toks (init t0 d).
 Proof. intros id e H. discriminate H. Qed.
 
-Lemma verdict_some cfg nw t e :
-  lib_verdict cfg nw t = Some e ->
-  static_ok cfg t = true /\ t_exp t = Some e /\ exp_ok nw t = true /\ nbf_ok nw t = true.
+Lemma claims_pass_fields cfg nw t : claims_pass cfg nw t = true ->
+  exp_ok nw t = true /\ nbf_ok nw t = true /\ aud_ok cfg t = true /\ iss_ok cfg t = true.
 Proof.
-  unfold lib_verdict, static_ok. intros H.
-  destruct (alg_allowed (t_alg t)), (t_key_found t), (t_sig_ok t), (exp_ok nw t) eqn:He, (nbf_ok nw t),
-    (aud_ok cfg t), (iss_ok cfg t); cbn in H; try discriminate. auto.
+  unfold claims_pass. destruct (exp_ok nw t), (nbf_ok nw t), (aud_ok cfg t), (iss_ok cfg t); cbn; intros H;
+    try discriminate; auto.
 Qed.
 
-Lemma verdict_of_good cfg nw rv t :
-  good cfg nw rv t = true -> exists e, lib_verdict cfg nw t = Some e /\ t_exp t = Some e.
-Proof.
-  unfold good, lib_verdict. intros H.
-  destruct (alg_allowed (t_alg t)), (t_key_found t), (t_sig_ok t), (iss_ok cfg t), (aud_ok cfg t),
-    (exp_ok nw t) eqn:He, (nbf_ok nw t); cbn in H; try discriminate.
-  cbn. unfold exp_ok in He. destruct (t_exp t) as [e|]; [|discriminate]. exists e. auto.
-Qed.
+Lemma Inv_sub cfg toks s s' :
+  now s' = now s -> (forall id e, lookup (cache s') id = Some e -> lookup (cache s) id = Some e) ->
+  Inv cfg toks s -> Inv cfg toks s'.
+Proof. intros Hn Hsub HI id e H. rewrite Hn. apply (HI id e). apply Hsub, H. Qed.
 
-Lemma Inv_sub cfg toks nw c c' rv :
-  (forall id e, lookup c' id = Some e -> lookup c id = Some e) ->
-  Inv cfg toks (mkS nw c rv) -> Inv cfg toks (mkS nw c' rv).
-Proof. intros Hsub HI id e H. apply (HI id e). cbn [cache] in *. apply Hsub, H. Qed.
-
-Lemma Inv_miss fixed cfg toks s c id :
-  Inv cfg toks (mkS (now s) c (revoked s)) ->
-  Inv cfg toks (fst (validate_miss fixed cfg s c id (toks id))).
+Lemma Inv_miss fixed cfg toks s c id : 0 < c_ttl cfg ->
+  (forall i e, lookup c i = Some e -> lookup (cache s) i = Some e) ->
+  Inv cfg toks s -> Inv cfg toks (fst (validate_miss fixed cfg s c id (toks id))).
 Proof.
-  intros HI. unfold validate_miss.
-  destruct (lib_verdict cfg (now s) (toks id)) as [e|] eqn:Hv; [|exact HI].
-  destruct (fixed && is_revoked (revoked s) (t_jti (toks id))); [exact HI|].
-  destruct (is_nil (user_of (toks id))) eqn:Hu; [exact HI|].
-  cbn [fst]. intros id' e' H. cbn [cache now] in *. rewrite lookup_cons in H.
+  intros Httl Hsub HI. unfold validate_miss.
+  destruct (lib_verdict cfg s (toks id)) as [s1 v] eqn:Hv.
+  apply lib_verdict_spec in Hv; [|exact Httl]. destruct Hv as [[Hn _] [_ Hsome]].
+  assert (Hbase : Inv cfg toks (set_cache s1 c)).
+  { apply (Inv_sub cfg toks s); [exact Hn|exact Hsub|exact HI]. }
+  destruct v as [e|]; [|exact Hbase].
+  destruct (fixed && is_revoked (revoked s) (t_jti (toks id))); [exact Hbase|].
+  destruct (is_nil (user_of (toks id))) eqn:Hu; [exact Hbase|].
+  cbn [fst]. intros id' e' H. cbn [set_cache cache now] in *. rewrite lookup_cons in H.
   destruct (Nat.eqb id id') eqn:Hid.
   - apply Nat.eqb_eq in Hid. subst id'. inversion H; subst e'. clear H.
-    apply verdict_some in Hv. destruct Hv as [Hs [He [_ Hn]]].
-    unfold entry_ok. cbn [e_user e_exp e_jti]. auto 10.
-  - apply lookup_evict_some in H. apply (HI id' e' H).
+    destruct (Hsome e eq_refl) as [Ha [_ [_ [Hc He]]]]. apply claims_pass_fields in Hc.
+    destruct Hc as [_ [Hnb [Hau His]]]. unfold entry_ok, static_ok. cbn [e_user e_exp e_jti].
+    rewrite Ha, His, Hau, Hn. auto 10.
+  - apply lookup_evict_some in H. rewrite Hn. apply (HI id' e'). apply Hsub, H.
 Qed.
 
-Lemma Inv_validate fixed cfg toks s id :
+Lemma Inv_validate fixed cfg toks s id : 0 < c_ttl cfg ->
   Inv cfg toks s -> Inv cfg toks (fst (validate fixed cfg s id (toks id))).
 Proof.
-  intros HI. destruct s as [nw c rv]. unfold validate. cbn [cache now revoked].
-  assert (Hev : Inv cfg toks (mkS nw (evict c id) rv)).
-  { apply (Inv_sub cfg toks nw c); [|exact HI]. intros i e. apply lookup_evict_some. }
-  destruct (lookup c id) as [e|] eqn:Hl.
-  - destruct (nw <? e_exp e).
-    + destruct (is_revoked rv (e_jti e)); [exact Hev|exact HI].
-    + apply (Inv_miss fixed cfg toks (mkS nw c rv) (evict c id) id). exact Hev.
-  - apply (Inv_miss fixed cfg toks (mkS nw c rv) c id). exact HI.
+  intros Httl HI. unfold validate.
+  destruct (lookup (cache s) id) as [e|] eqn:Hl.
+  - destruct (now s <? e_exp e).
+    + destruct (is_revoked (revoked s) (e_jti e)); [|exact HI].
+      apply (Inv_sub cfg toks s); [reflexivity| |exact HI]. intros i x. apply lookup_evict_some.
+    + apply Inv_miss; [exact Httl| |exact HI]. intros i x. apply lookup_evict_some.
+  - apply Inv_miss; [exact Httl|auto|exact HI].
 Qed.
 
 Lemma nbf_mono t a b : a <= b -> nbf_ok a t = true -> nbf_ok b t = true.
 Proof. unfold nbf_ok. destruct (t_nbf t); [|auto]. intros. lia. Qed.
 
-Lemma Inv_step fixed cfg toks s o : Inv cfg toks s -> Inv cfg toks (fst (step fixed cfg toks s o)).
+Lemma Inv_step fixed cfg toks s o : 0 < c_ttl cfg ->
+  Inv cfg toks s -> Inv cfg toks (fst (step fixed cfg toks s o)).
 Proof.
-  intros HI. destruct o as [id|j|d|id|]; cbn [step].
-  - pose proof (Inv_validate fixed cfg toks s id HI) as H.
+  intros Httl HI. destruct o as [id|j|d|id| |doc]; cbn [step].
+  - pose proof (Inv_validate fixed cfg toks s id Httl HI) as H.
     destruct (validate fixed cfg s id (toks id)). exact H.
   - cbn [fst]. intros id e H. apply (HI id e H).
   - cbn [fst]. intros id e H. cbn [cache now] in *. destruct (HI id e H) as [A [B [C D]]].
     split; [exact A|]. split; [exact B|]. split; [|exact D].
     apply (nbf_mono _ (now s)); [lia|exact C].
-  - cbn [fst]. destruct s as [nw c rv]. apply (Inv_sub cfg toks nw c); [|exact HI].
-    intros i e. apply lookup_evict_some.
+  - cbn [fst]. apply (Inv_sub cfg toks s); [reflexivity| |exact HI]. intros i e. apply lookup_evict_some.
   - cbn [fst]. intros id e H. discriminate H.
+  - cbn [fst]. intros id e H. apply (HI id e H).
 Qed.
 
-Lemma Inv_run fixed cfg toks h : forall s, Inv cfg toks s -> Inv cfg toks (run fixed cfg toks h s).
+Lemma Inv_run fixed cfg toks h : 0 < c_ttl cfg ->
+  forall s, Inv cfg toks s -> Inv cfg toks (run fixed cfg toks h s).
 Proof.
-  unfold run. induction h as [|o h IH]; intros s HI; [exact HI|]. cbn [fold_left]. apply IH, Inv_step, HI.
+  intros Httl. unfold run. induction h as [|o h IH]; intros s HI; [exact HI|]. cbn [fold_left].
+  apply IH, Inv_step; assumption.
 Qed.
 
 (* ---- soundness of acceptance (repaired code) *)
-Lemma accept_sound_inv cfg toks s id :
+Lemma claims_ok_intro cfg nw rv t :
+  alg_allowed (t_alg t) = true -> iss_ok cfg t = true -> aud_ok cfg t = true -> exp_ok nw t = true ->
+  nbf_ok nw t = true -> is_revoked rv (t_jti t) = false -> claims_ok cfg nw rv t = true.
+Proof. unfold claims_ok. intros -> -> -> -> -> ->. reflexivity. Qed.
+
+Lemma accept_sound_inv cfg toks s id : 0 < c_ttl cfg ->
   Inv cfg toks s -> accepted (validate true cfg s id (toks id)) = true ->
-  good cfg (now s) (revoked s) (toks id) = true.
+  claims_ok cfg (now s) (revoked s) (toks id) = true /\
+  (hit s id \/ key_now cfg (fst (validate true cfg s id (toks id))) (toks id)).
 Proof.
-  intros HI. unfold validate.
+  intros Httl HI. unfold validate.
   assert (Hmiss : forall c, accepted (validate_miss true cfg s c id (toks id)) = true ->
-                            good cfg (now s) (revoked s) (toks id) = true).
+     claims_ok cfg (now s) (revoked s) (toks id) = true /\
+     key_now cfg (fst (validate_miss true cfg s c id (toks id))) (toks id)).
   { intros c. unfold validate_miss.
-    destruct (lib_verdict cfg (now s) (toks id)) as [e|] eqn:Hv; [|discriminate].
-    cbn [andb].
+    destruct (lib_verdict cfg s (toks id)) as [s1 v] eqn:Hv.
+    apply lib_verdict_spec in Hv; [|exact Httl]. destruct Hv as [[Hn _] [_ Hsome]].
+    destruct v as [e|]; [|discriminate]. cbn [andb].
     destruct (is_revoked (revoked s) (t_jti (toks id))) eqn:Hr; [discriminate|].
     destruct (is_nil (user_of (toks id))); [discriminate|]. intros _.
-    apply verdict_some in Hv. destruct Hv as [Hs [_ [He Hn]]]. unfold good, static_ok in *.
-    rewrite Hr, He, Hn.
-    destruct (alg_allowed (t_alg (toks id))), (t_key_found (toks id)), (t_sig_ok (toks id)),
-      (iss_ok cfg (toks id)), (aud_ok cfg (toks id)); cbn in Hs; try discriminate. reflexivity. }
-  destruct (lookup (cache s) id) as [e|] eqn:Hl; [|apply Hmiss].
-  destruct (Z.ltb_spec (now s) (e_exp e)) as [Hlt|Hge]; [|apply Hmiss].
-  destruct (is_revoked (revoked s) (e_jti e)) eqn:Hr; [discriminate|]. intros _.
-  destruct (HI id e Hl) as [Hs [He [Hn [Hj _]]]]. unfold good, static_ok in *.
-  rewrite <- Hj, Hr, Hn. unfold exp_ok. rewrite He.
-  destruct (alg_allowed (t_alg (toks id))), (t_key_found (toks id)), (t_sig_ok (toks id)),
-    (iss_ok cfg (toks id)), (aud_ok cfg (toks id)); cbn in Hs; try discriminate.
-  cbn. destruct (Z.ltb_spec (now s) (e_exp e)); [reflexivity|lia].
+    destruct (Hsome e eq_refl) as [Ha [Hk [Hsv [Hc He]]]]. apply claims_pass_fields in Hc.
+    destruct Hc as [Hex [Hnb [Hau His]]].
+    split; [apply claims_ok_intro; assumption|].
+    unfold key_now. split; [exact Hsv|]. cbn [fst]. unfold key_sel in Hk.
+    cbn [set_cache jwks now fetched_at]. exact Hk. }
+  destruct (lookup (cache s) id) as [e|] eqn:Hl.
+  - destruct (Z.ltb_spec (now s) (e_exp e)) as [Hlt|Hge].
+    + destruct (is_revoked (revoked s) (e_jti e)) eqn:Hr; [discriminate|]. intros _.
+      destruct (HI id e Hl) as [Hs [He [Hn [Hj _]]]]. unfold static_ok in Hs.
+      destruct (alg_allowed (t_alg (toks id))) eqn:Ha, (iss_ok cfg (toks id)) eqn:Hi, (aud_ok cfg (toks id)) eqn:Hu;
+        cbn in Hs; try discriminate.
+      split.
+      * apply claims_ok_intro; auto.
+        -- unfold exp_ok. rewrite He. apply Z.ltb_lt. exact Hlt.
+        -- rewrite <- Hj. exact Hr.
+      * left. exists e. auto.
+    + intros H. destruct (Hmiss _ H) as [A B]. split; [exact A|right; exact B].
+  - intros H. destruct (Hmiss _ H) as [A B]. split; [exact A|right; exact B].
 Qed.
 
-Lemma good_fields cfg nw rv t :
-  good cfg nw rv t = true ->
-  alg_allowed (t_alg t) = true /\ t_key_found t = true /\ t_sig_ok t = true /\
-  iss_ok cfg t = true /\ aud_ok cfg t = true /\
+Lemma claims_ok_fields cfg nw rv t :
+  claims_ok cfg nw rv t = true ->
+  alg_allowed (t_alg t) = true /\ iss_ok cfg t = true /\ aud_ok cfg t = true /\
   (exists e, t_exp t = Some e /\ nw < e) /\ nbf_ok nw t = true /\ is_revoked rv (t_jti t) = false.
 Proof.
-  unfold good. intros H.
-  destruct (alg_allowed (t_alg t)), (t_key_found t), (t_sig_ok t), (iss_ok cfg t), (aud_ok cfg t),
-    (exp_ok nw t) eqn:He, (nbf_ok nw t), (is_revoked rv (t_jti t)); cbn in H; try discriminate.
+  unfold claims_ok. intros H.
+  destruct (alg_allowed (t_alg t)), (iss_ok cfg t), (aud_ok cfg t), (exp_ok nw t) eqn:He, (nbf_ok nw t),
+    (is_revoked rv (t_jti t)); cbn in H; try discriminate.
   repeat split; try reflexivity. unfold exp_ok in He. destruct (t_exp t) as [e|]; [|discriminate].
   exists e. split; [reflexivity|lia].
 Qed.
 
-Lemma accept_sound cfg toks t0 h id :
-  let s := run true cfg toks h (init t0) in
-  accepted (validate true cfg s id (toks id)) = true ->
+Lemma accept_sound cfg toks t0 d0 h id : 0 < c_ttl cfg ->
+  let s := run true cfg toks h (init t0 d0) in
+  let r := validate true cfg s id (toks id) in
+  accepted r = true ->
   let t := toks id in
-  alg_allowed (t_alg t) = true /\ t_key_found t = true /\ t_sig_ok t = true /\
-  iss_ok cfg t = true /\ aud_ok cfg t = true /\
-  (exists e, t_exp t = Some e /\ now s < e) /\ nbf_ok (now s) t = true /\
-  is_revoked (revoked s) (t_jti t) = false.
+  (alg_allowed (t_alg t) = true /\ iss_ok cfg t = true /\ aud_ok cfg t = true /\
+   (exists e, t_exp t = Some e /\ now s < e) /\ nbf_ok (now s) t = true /\
+   is_revoked (revoked s) (t_jti t) = false) /\
+  (hit s id \/ key_now cfg (fst r) t).
 Proof.
-  intros s H t. apply good_fields. apply accept_sound_inv; [|exact H].
-  apply Inv_run, Inv_init.
+  intros Httl s r H t. destruct (accept_sound_inv cfg toks s id Httl) as [A B]; [|exact H|].
+  - apply Inv_run; [exact Httl|apply Inv_init].
+  - split; [apply claims_ok_fields; exact A|exact B].
 Qed.
 
-(* ---- revocation is effective for every later request, whatever the cache holds *)
-Lemma revoked_step fixed cfg toks s o j : In j (revoked s) -> In j (revoked (fst (step fixed cfg toks s o))).
+(* ---- the cached key set is always what the IdP published at the most recent successful fetch *)
+Lemma run_app fixed cfg toks h1 h2 s :
+  run fixed cfg toks (h1 ++ h2) s = run fixed cfg toks h2 (run fixed cfg toks h1 s).
+Proof. unfold run. apply fold_left_app. Qed.
+
+Lemma validate_miss_keys fixed cfg s c id t : 0 < c_ttl cfg ->
+  let s' := fst (validate_miss fixed cfg s c id t) in
+  keys_step s s' /\ published s' = published s /\ now s' = now s.
 Proof.
-  intros H. destruct o as [id|k|d|id|]; cbn [step]; try (cbn [fst revoked]; auto; right; exact H).
-  unfold validate, validate_miss.
+  intros Httl. unfold validate_miss. destruct (lib_verdict cfg s t) as [s1 v] eqn:Hv.
+  apply lib_verdict_spec in Hv; [|exact Httl]. destruct Hv as [[Hn [_ [_ Hp]]] [Hk _]].
+  assert (H : forall c', keys_step s (set_cache s1 c') /\ published (set_cache s1 c') = published s /\
+                         now (set_cache s1 c') = now s).
+  { intros c'. cbn [set_cache published now]. split; [|auto]. destruct Hk as [[A B]|[A B]]; [left|right]; cbn; auto. }
+  destruct v as [e|]; [|apply H].
+  destruct (fixed && is_revoked (revoked s) (t_jti t)); [apply H|].
+  destruct (is_nil (user_of t)); apply H.
+Qed.
+
+Lemma step_keys fixed cfg toks s o : 0 < c_ttl cfg ->
+  let s' := fst (step fixed cfg toks s o) in
+  (jwks s' = jwks s /\ fetched_at s' = fetched_at s) \/
+  (jwks s' = usable (published s') /\ fetched_at s' = now s').
+Proof.
+  intros Httl. destruct o as [id|j|d|id| |doc]; cbn [step]; try (left; cbn; auto; fail).
+  unfold validate.
+  assert (Hm : forall c, let s' := fst (validate_miss fixed cfg s c id (toks id)) in
+     (jwks s' = jwks s /\ fetched_at s' = fetched_at s) \/
+     (jwks s' = usable (published s') /\ fetched_at s' = now s')).
+  { intros c. destruct (validate_miss_keys fixed cfg s c id (toks id) Httl) as [[H|[A B]] [Hp Hn]]; [left; exact H|].
+    right. cbv zeta. rewrite Hp, Hn. auto. }
   destruct (lookup (cache s) id) as [e|].
   - destruct (now s <? e_exp e).
-    + destruct (is_revoked (revoked s) (e_jti e)); cbn [fst revoked]; exact H.
-    + destruct (lib_verdict cfg (now s) (toks id)); [|exact H].
-      destruct (fixed && is_revoked (revoked s) (t_jti (toks id))); [exact H|].
-      destruct (is_nil (user_of (toks id))); exact H.
-  - destruct (lib_verdict cfg (now s) (toks id)); [|exact H].
-    destruct (fixed && is_revoked (revoked s) (t_jti (toks id))); [exact H|].
-    destruct (is_nil (user_of (toks id))); exact H.
+    + destruct (is_revoked (revoked s) (e_jti e)); cbn; left; auto.
+    + specialize (Hm (evict (cache s) id)). destruct (validate_miss fixed cfg s (evict (cache s) id) id (toks id)). exact Hm.
+  - specialize (Hm (cache s)). destruct (validate_miss fixed cfg s (cache s) id (toks id)). exact Hm.
+Qed.
+
+Lemma keys_from_last_fetch fixed cfg toks t0 d0 h : 0 < c_ttl cfg ->
+  let s := run fixed cfg toks h (init t0 d0) in
+  jwks s = [] \/
+  exists h1 h2, h = h1 ++ h2 /\
+    jwks s = usable (published (run fixed cfg toks h1 (init t0 d0))) /\
+    fetched_at s = now (run fixed cfg toks h1 (init t0 d0)).
+Proof.
+  intros Httl. induction h as [|o h IH] using rev_ind.
+  - left. reflexivity.
+  - cbv zeta. rewrite run_app.
+    set (s := run fixed cfg toks h (init t0 d0)) in *.
+    assert (Hone : run fixed cfg toks [o] s = fst (step fixed cfg toks s o)) by reflexivity.
+    rewrite Hone.
+    destruct (step_keys fixed cfg toks s o Httl) as [[A B]|[A B]].
+    + cbv zeta in IH. destruct IH as [IH|[h1 [h2 [E [J F]]]]].
+      * left. rewrite A. exact IH.
+      * right. exists h1, (h2 ++ [o]). split; [rewrite E, app_assoc; reflexivity|].
+        rewrite A, B. auto.
+    + right. exists (h ++ [o]), []. split; [rewrite app_nil_r; reflexivity|].
+      rewrite run_app. fold s. rewrite Hone. auto.
+Qed.
+
+(* ---- revocation is effective for every later request, whatever the caches hold *)
+Lemma revoked_step fixed cfg toks s o j : In j (revoked s) -> In j (revoked (fst (step fixed cfg toks s o))).
+Proof.
+  intros H. destruct o as [id|k|d|id| |doc]; cbn [step]; try (cbn [fst revoked set_cache]; auto; right; exact H).
+  unfold validate.
+  assert (Hm : forall c, In j (revoked (fst (validate_miss fixed cfg s c id (toks id))))).
+  { intros c. unfold validate_miss. destruct (lib_verdict cfg s (toks id)) as [s1 v] eqn:Hv.
+    assert (Hr : revoked s1 = revoked s).
+    { unfold lib_verdict in Hv. destruct (select_key cfg s (toks id)) as [s2 k] eqn:Hs. inversion Hv; subst.
+      unfold select_key in Hs. destruct (negb (alg_allowed (t_alg (toks id)))); [inversion Hs; reflexivity|].
+      destruct (is_nil (t_kid (toks id))).
+      - unfold first_key in Hs. destruct (jwks s) as [|[k0 m0] r0]; [|inversion Hs; reflexivity].
+        unfold refresh in Hs. destruct (usable (published s)); inversion Hs; reflexivity.
+      - unfold key_by_id, refresh_find, refresh in Hs.
+        destruct (is_fresh cfg s).
+        + destruct (find_kid (jwks s) (t_kid (toks id))); [inversion Hs; reflexivity|].
+          destruct (limited s); [inversion Hs; reflexivity|].
+          cbn [published set_miss] in Hs. destruct (usable (published s)); inversion Hs; reflexivity.
+        + destruct (usable (published s)); inversion Hs; reflexivity. }
+    destruct v as [e|]; [|cbn; rewrite Hr; exact H].
+    destruct (fixed && is_revoked (revoked s) (t_jti (toks id))); [cbn; rewrite Hr; exact H|].
+    destruct (is_nil (user_of (toks id))); cbn; rewrite Hr; exact H. }
+  destruct (lookup (cache s) id) as [e|].
+  - destruct (now s <? e_exp e).
+    + destruct (is_revoked (revoked s) (e_jti e)); cbn [fst revoked set_cache]; exact H.
+    + specialize (Hm (evict (cache s) id)). destruct (validate_miss fixed cfg s (evict (cache s) id) id (toks id)). exact Hm.
+  - specialize (Hm (cache s)). destruct (validate_miss fixed cfg s (cache s) id (toks id)). exact Hm.
 Qed.
 
 Lemma revoked_run fixed cfg toks h : forall s j, In j (revoked s) -> In j (revoked (run fixed cfg toks h s)).
@@ -195,60 +367,67 @@ Proof.
   - unfold run. cbn [fold_left]. apply IH, H.
 Qed.
 
-Lemma run_app fixed cfg toks h1 h2 s :
-  run fixed cfg toks (h1 ++ h2) s = run fixed cfg toks h2 (run fixed cfg toks h1 s).
-Proof. unfold run. apply fold_left_app. Qed.
-
 Lemma is_revoked_in rv j : j <> [] -> In j rv -> is_revoked rv j = true.
 Proof.
   intros Hne Hin. unfold is_revoked. destruct j as [|c j]; [congruence|]. cbn [is_nil negb andb].
   apply existsb_exists. exists (c :: j). split; [exact Hin|]. apply str_eqb_eq. reflexivity.
 Qed.
 
-Lemma revocation_effective cfg toks s0 h1 h2 j id :
+Lemma revocation_effective cfg toks s0 h1 h2 j id : 0 < c_ttl cfg ->
   Inv cfg toks s0 -> j <> [] -> t_jti (toks id) = j -> In (Revoke j) h1 ->
   accepted (validate true cfg (run true cfg toks (h1 ++ h2) s0) id (toks id)) = false.
 Proof.
-  intros HI Hne Hj Hin.
+  intros Httl HI Hne Hj Hin.
   destruct (accepted (validate true cfg (run true cfg toks (h1 ++ h2) s0) id (toks id))) eqn:Ha; [|reflexivity].
-  exfalso. apply accept_sound_inv in Ha; [|apply Inv_run, HI].
-  apply good_fields in Ha. destruct Ha as [_ [_ [_ [_ [_ [_ [_ Hr]]]]]]].
+  exfalso. apply accept_sound_inv in Ha; [|exact Httl|apply Inv_run; assumption].
+  destruct Ha as [Ha _]. apply claims_ok_fields in Ha. destruct Ha as [_ [_ [_ [_ [_ Hr]]]]].
   rewrite Hj in Hr. rewrite is_revoked_in in Hr; [discriminate|exact Hne|].
   rewrite run_app. apply revoked_run. apply revoke_in_run. exact Hin.
 Qed.
 
-(* ---- completeness: a good, unrevoked token with a user is accepted, whatever the cache holds *)
+(* ---- completeness: claims fine, not revoked, a user, and either a live cache entry or a key selection
+        that yields the signing material: accepted as that user *)
 Lemma accept_complete fixed cfg toks s id :
-  Inv cfg toks s -> good cfg (now s) (revoked s) (toks id) = true -> is_nil (user_of (toks id)) = false ->
+  Inv cfg toks s -> claims_ok cfg (now s) (revoked s) (toks id) = true -> is_nil (user_of (toks id)) = false ->
+  (hit s id \/ (snd (select_key cfg s (toks id)) = Some (t_signer (toks id)) /\ t_sig_valid (toks id) = true)) ->
   snd (validate fixed cfg s id (toks id)) = Accept (user_of (toks id)).
 Proof.
-  intros HI Hg Hu.
-  assert (Hmiss : forall c, snd (validate_miss fixed cfg s c id (toks id)) = Accept (user_of (toks id))).
-  { intros c. unfold validate_miss. destruct (verdict_of_good _ _ _ _ Hg) as [e [Hv _]]. rewrite Hv.
-    apply good_fields in Hg. destruct Hg as [_ [_ [_ [_ [_ [_ [_ Hr]]]]]]]. rewrite Hr, andb_false_r, Hu. reflexivity. }
-  unfold validate. destruct (lookup (cache s) id) as [e|] eqn:Hl; [|apply Hmiss].
-  destruct (now s <? e_exp e); [|apply Hmiss].
-  destruct (HI id e Hl) as [_ [_ [_ [Hj [Hus _]]]]].
-  apply good_fields in Hg. destruct Hg as [_ [_ [_ [_ [_ [_ [_ Hr]]]]]]].
-  rewrite Hj, Hr. cbn [snd]. rewrite Hus. reflexivity.
+  intros HI Hg Hu Hk.
+  destruct (claims_ok_fields _ _ _ _ Hg) as [Ha [Hi [Hau [[e0 [He0 Hlt0]] [Hnb Hr]]]]].
+  assert (Hmiss : forall c, snd (select_key cfg s (toks id)) = Some (t_signer (toks id)) ->
+                            t_sig_valid (toks id) = true ->
+                            snd (validate_miss fixed cfg s c id (toks id)) = Accept (user_of (toks id))).
+  { intros c Hsel Hsv. unfold validate_miss, lib_verdict.
+    destruct (select_key cfg s (toks id)) as [s1 k]. cbn [snd] in Hsel. subst k.
+    rewrite Nat.eqb_refl, Hsv. unfold claims_pass, exp_ok. rewrite He0, Hnb, Hau, Hi.
+    destruct (Z.ltb_spec (now s) e0); [|lia]. cbn [andb]. rewrite Hr, andb_false_r, Hu. reflexivity. }
+  unfold validate. destruct (lookup (cache s) id) as [e|] eqn:Hl.
+  - destruct (HI id e Hl) as [_ [He [_ [Hj [Hus _]]]]].
+    assert (e_exp e = e0) by congruence. subst e0.
+    destruct (Z.ltb_spec (now s) (e_exp e)); [|lia].
+    rewrite Hj, Hr. cbn [snd]. rewrite Hus. reflexivity.
+  - destruct Hk as [[e [Hl' _]]|[Hsel Hsv]]; [congruence|]. apply Hmiss; assumption.
 Qed.
 
-Lemma accept_complete_run fixed cfg toks t0 h id :
-  let s := run fixed cfg toks h (init t0) in
-  good cfg (now s) (revoked s) (toks id) = true -> is_nil (user_of (toks id)) = false ->
+Lemma accept_complete_run fixed cfg toks t0 d0 h id : 0 < c_ttl cfg ->
+  let s := run fixed cfg toks h (init t0 d0) in
+  claims_ok cfg (now s) (revoked s) (toks id) = true -> is_nil (user_of (toks id)) = false ->
+  (hit s id \/ (snd (select_key cfg s (toks id)) = Some (t_signer (toks id)) /\ t_sig_valid (toks id) = true)) ->
   snd (validate fixed cfg s id (toks id)) = Accept (user_of (toks id)).
-Proof. apply accept_complete. apply Inv_run, Inv_init. Qed.
+Proof. intros Httl. apply accept_complete. apply Inv_run; [exact Httl|apply Inv_init]. Qed.
 
 (* ---- the code before the repair: a revoked token that was never presented before is accepted *)
 Definition demo_tok : token :=
-  mkT RS256 true true [105]%N [[97]%N] (Some 1000) None [106]%N [117]%N [].
-Definition demo_cfg : config := mkC [105]%N [97]%N.
+  mkT RS256 [107]%N 1 true [105]%N [[97]%N] (Some 1000) None [106]%N [117]%N [].
+Definition demo_cfg : config := mkC [105]%N [97]%N 3600.
+Definition demo_doc : list jwk := [mkK [120]%N 9 false; mkK [107]%N 1 true].
+Definition demo_doc2 : list jwk := [mkK [107]%N 2 true].     (* kid reused for other material: key 1 withdrawn *)
 
 Lemma refuted_current :
-  exists cfg toks h id,
+  exists cfg toks d0 h id, 0 < c_ttl cfg /\
     In (Revoke (t_jti (toks id))) h /\ t_jti (toks id) <> [] /\
-    accepted (validate false cfg (run false cfg toks h (init 0)) id (toks id)) = true.
+    accepted (validate false cfg (run false cfg toks h (init 0 d0)) id (toks id)) = true.
 Proof.
-  exists demo_cfg, (fun _ => demo_tok), [Revoke [106]%N], 0%nat.
-  split; [left; reflexivity|]. split; [discriminate|]. vm_compute. reflexivity.
+  exists demo_cfg, (fun _ => demo_tok), demo_doc, [Revoke [106]%N], 0%nat.
+  split; [reflexivity|]. split; [left; reflexivity|]. split; [discriminate|]. vm_compute. reflexivity.
 Qed.
